@@ -1,6 +1,7 @@
 import CelmaVerif.Lemmas.RulesSound
 import CelmaVerif.Lemmas.RulesComplete
 import CelmaVerif.Lemmas.RulesExample
+import CelmaVerif.Lemmas.ParseSmall
 /-
   C02 — "No command line that breaks a declared rule is silently accepted."
 
@@ -256,5 +257,90 @@ open CelmaVerif.ProgArgs.RulesExample in
     matching prefix is not enough), `-m ""` -/
 example : (runVal [⟨4, "Abc".toList, true⟩]).isThrow = true ∧ (runVal [⟨4, "abc77".toList, true⟩]).isThrow = true ∧
     (runVal [⟨4, [], true⟩]).isThrow = true := by decide
+
+/-! ### the checks on length and on the list of allowed values, declaratively -/
+
+/-- Minimum-length check: if the evaluation returns normally, every value given to a string or int
+    argument that carries the check `minLength n` has at least `n` characters (for a list argument:
+    every element of the value). -/
+theorem C02_min_length (cfg : Cfg) (inits : List DVal) (us : List Use) (h : HState)
+    (e : evalUses cfg (cfg.initState inits) us = .ok h) (u : Use) (hu : u ∈ us) (d : ArgDef)
+    (hd : cfg.args[u.arg]? = some d) (n : Nat) (hc : Check.minLength n ∈ d.checks) :
+    (d.kind = .str ∨ d.kind = .int → n ≤ u.val.length) ∧
+    (d.kind = .vecInt → ∀ t ∈ splitSep d.sep u.val, n ≤ t.length) :=
+  check_holds_of_accepted e hu hd hc (fun v => n ≤ v.length) (check_minLength_ok n)
+
+/-- Maximum-length check: if the evaluation returns normally, every value given to a string or int
+    argument that carries the check `maxLength n` has at most `n` characters (for a list argument:
+    every element of the value). -/
+theorem C02_max_length (cfg : Cfg) (inits : List DVal) (us : List Use) (h : HState)
+    (e : evalUses cfg (cfg.initState inits) us = .ok h) (u : Use) (hu : u ∈ us) (d : ArgDef)
+    (hd : cfg.args[u.arg]? = some d) (n : Nat) (hc : Check.maxLength n ∈ d.checks) :
+    (d.kind = .str ∨ d.kind = .int → u.val.length ≤ n) ∧
+    (d.kind = .vecInt → ∀ t ∈ splitSep d.sep u.val, t.length ≤ n) :=
+  check_holds_of_accepted e hu hd hc (fun v => v.length ≤ n) (check_maxLength_ok n)
+
+/-- List of allowed values: if the evaluation returns normally, every value given to a string or
+    int argument that carries the check `values vs ignoreCase` (for a list argument: every element
+    of the value) is one of the words `vs` — literally when `ignoreCase` is off; when it is on, it
+    equals one of them after both are put in lower case (ASCII letters only, `toLowerAscii`). -/
+theorem C02_values_list (cfg : Cfg) (inits : List DVal) (us : List Use) (h : HState)
+    (e : evalUses cfg (cfg.initState inits) us = .ok h) (u : Use) (hu : u ∈ us) (d : ArgDef)
+    (hd : cfg.args[u.arg]? = some d) (vs : List Word) (ic : Bool) (hc : Check.values vs ic ∈ d.checks) :
+    (d.kind = .str ∨ d.kind = .int →
+      (ic = false → u.val ∈ vs) ∧
+      (ic = true → ∃ v ∈ vs, v.map toLowerAscii = u.val.map toLowerAscii)) ∧
+    (d.kind = .vecInt → ∀ t ∈ splitSep d.sep u.val,
+      (ic = false → t ∈ vs) ∧
+      (ic = true → ∃ v ∈ vs, v.map toLowerAscii = t.map toLowerAscii)) :=
+  check_holds_of_accepted e hu hd hc
+    (fun w => (ic = false → w ∈ vs) ∧ (ic = true → ∃ v ∈ vs, v.map toLowerAscii = w.map toLowerAscii))
+    (check_values_ok vs ic)
+
+/-! ### length and allowed-values checks: non-vacuity -/
+
+namespace ExChecks
+/-- `-m,--mode` (string, one of `fast`, `slow`); `-c,--colour` (string, one of `Red`, `Green`, case
+    ignored); `-w,--word` (string, 2 to 4 characters); `-l,--list` (list of int, every element at
+    least 2 characters) -/
+def cfg : Cfg :=
+  { args := [
+      { key := ⟨some 'm', "mode".toList⟩, kind := .str, vmode := .required, card := .max 1,
+        checks := [.values ["fast".toList, "slow".toList] false] },
+      { key := ⟨some 'c', "colour".toList⟩, kind := .str, vmode := .required, card := .max 1,
+        checks := [.values ["Red".toList, "Green".toList] true] },
+      { key := ⟨some 'w', "word".toList⟩, kind := .str, vmode := .required, card := .max 1,
+        checks := [.minLength 2, .maxLength 4] },
+      { key := ⟨some 'l', "list".toList⟩, kind := .vecInt, vmode := .required, card := .unlimited,
+        checks := [.minLength 2] } ] }
+def inits : List DVal := [.str [], .str [], .str [], .vec []]
+def run (us : List Use) : Res HState := evalUses cfg (cfg.initState inits) us
+end ExChecks
+
+open ExChecks in
+/-- accepted: `-m fast -c rED -w abc -l 10,20`, also `-w ab` and `-w abcd` (both bounds inclusive) -/
+example : (run [⟨0, "fast".toList, true⟩, ⟨1, "rED".toList, true⟩, ⟨2, "abc".toList, true⟩,
+      ⟨3, "10,20".toList, true⟩]).isOk = true ∧
+    (run [⟨2, "ab".toList, true⟩]).isOk = true ∧ (run [⟨2, "abcd".toList, true⟩]).isOk = true := by decide
+
+open ExChecks in
+/-- rejected: `-m Fast` (case matters), `-c blue`, `-w a` (too short), `-w abcde` (too long),
+    `-l 10,5` (second element too short) -/
+example : (run [⟨0, "Fast".toList, true⟩]).isThrow = true ∧ (run [⟨1, "blue".toList, true⟩]).isThrow = true ∧
+    (run [⟨2, "a".toList, true⟩]).isThrow = true ∧ (run [⟨2, "abcde".toList, true⟩]).isThrow = true ∧
+    (run [⟨3, "10,5".toList, true⟩]).isThrow = true := by decide
+
+open ExChecks in
+/-- the theorems applied to the accepted line: `rED` is `Red` up to case, every element of `10,20`
+    has at least two characters -/
+example (h : HState)
+    (e : run [⟨0, "fast".toList, true⟩, ⟨1, "rED".toList, true⟩, ⟨2, "abc".toList, true⟩,
+      ⟨3, "10,20".toList, true⟩] = .ok h) :
+    (∃ v ∈ ["Red".toList, "Green".toList], v.map toLowerAscii = "rED".toList.map toLowerAscii) ∧
+    (∀ t ∈ splitSep ExChecks.cfg.args[3].sep "10,20".toList, 2 ≤ t.length) :=
+  ⟨((C02_values_list _ _ _ h e ⟨1, "rED".toList, true⟩ (by simp) ExChecks.cfg.args[1] rfl _ _
+      List.mem_cons_self).1 (Or.inl rfl)).2 rfl,
+   (C02_min_length _ _ _ h e ⟨3, "10,20".toList, true⟩ (by simp) ExChecks.cfg.args[3] rfl 2
+      List.mem_cons_self).2 rfl⟩
 
 end CelmaVerif.Props.C02
